@@ -1,4 +1,5 @@
 import AsyncVerif.Proofs.AggTools
+import AsyncVerif.Proofs.SetDict
 import AsyncVerif.Proofs.KindFreeTools
 import AsyncVerif.Proofs.Awaitify
 import AsyncVerif.Impl.Aggregations
@@ -131,5 +132,10 @@ theorem C03_awaitify_transparent (fl : Awaitify.Flavour) (behs : List (Except Na
   Awaitify.run_spec fl behs Awaitify.init (Awaitify.inv_init fl)
 
 example : Awaitify.run .objx Awaitify.init [.error 7, .ok 1, .ok 2] = [.exc 7, .val 1, .val 2] := by decide
+
+theorem C03_set (s fuel : Nat) : KindFree (Impl.set s fuel) := by
+  unfold Impl.set Std.set; kfree [Std.kf_setLoop s fuel]
+theorem C03_dict (s fuel : Nat) : KindFree (Impl.dict s fuel) := by
+  unfold Impl.dict Std.dict; kfree [Std.kf_dictLoop s fuel]
 
 end AsyncVerif
